@@ -29,6 +29,10 @@ def h_roundtrip(ctx):
     elif form == "plain+mask":
         src = X
         comp = dtools.to_compressed(src, order=order, mask=M.copy())
+    elif form == "plain+intmask":
+        # numpy's 0/1 integer spelling of a mask (valid for MaskedArray), for compressing and for expanding
+        src = X
+        comp = dtools.to_compressed(src, order=order, mask=M.astype(int))
     elif form == "quantity+mask":
         src = fm.UNITS.Quantity(X, "m")
         try:
@@ -51,7 +55,7 @@ def h_roundtrip(ctx):
     for k, idx in enumerate(keep):
         if k < len(cm):
             ctx.check(ctx.eq(cm[k], X[idx]), "compressed-order", {"sig": f"{shape}:{order}:{form}"})
-    back = dtools.from_compressed(comp, shape, order=order, mask=M.copy())
+    back = dtools.from_compressed(comp, shape, order=order, mask=M.astype(int) if form == "plain+intmask" else M.copy())
     bm = back.magnitude if dtools.is_quantified(back) else back
     ctx.check(np.shape(bm) == shape, "expanded-shape")
     ctx.check(bool(np.array_equal(np.ma.getmaskarray(bm), M)), "expanded-mask-differs", {"sig": f"{shape}:{order}"})
@@ -204,8 +208,8 @@ def families(tier):
     fams = []
     shapes = [(4,), (2, 3), (2, 2, 2)] if q else [(5,), (1,), (2, 3), (3, 2), (4, 2), (2, 2, 2), (3, 2, 2), (1, 3, 2)]
     for shape in shapes:
-        for form in ("masked", "plain+mask", "quantity", "quantity+mask"):
-            if q and form.startswith("quantity") and shape != (2, 3):
+        for form in ("masked", "plain+mask", "plain+intmask", "quantity", "quantity+mask"):
+            if q and (form.startswith("quantity") or form == "plain+intmask") and shape != (2, 3):
                 continue
             fams.append(dict(name=f"roundtrip:{'x'.join(map(str, shape))}:{form}", ref="vf.props.c18:h_roundtrip",
                              params={"shape": list(shape), "form": form},
